@@ -1,5 +1,9 @@
 mod c09sem;
+mod c02mut;
 mod c10;
+mod cexec;
+mod exec;
+mod progs;
 mod c14;
 mod c15;
 mod c18;
@@ -12,7 +16,7 @@ mod text;
 use crate::core::{CheckDef, Tier};
 
 fn defs() -> Vec<&'static CheckDef> {
-    vec![&c10::C09, &c10::C10, &c14::C14, &c15::C15, &c18::C18]
+    vec![&cexec::C02, &cexec::C04, &cexec::C05, &c10::C09, &c10::C10, &c14::C14, &c15::C15, &cexec::C17, &c18::C18]
 }
 
 fn main() {
